@@ -355,6 +355,7 @@ pub struct RecvStream {
     read_chunk_fut: ReadChunkFuture,
     is_0rtt: bool,
     pending_stop: Option<VarInt>,
+    id: quinn::StreamId,
 }
 
 type ReadChunkFuture = ReusableBoxFuture<
@@ -368,12 +369,14 @@ type ReadChunkFuture = ReusableBoxFuture<
 impl RecvStream {
     fn new(stream: quinn::RecvStream) -> Self {
         let is_0rtt = stream.is_0rtt();
+        let id = stream.id();
         Self {
             stream: Some(stream),
             // Should only allocate once the first time it's used
             read_chunk_fut: ReusableBoxFuture::new(async { unreachable!() }),
             is_0rtt,
             pending_stop: None,
+            id,
         }
     }
 }
@@ -415,7 +418,8 @@ impl quic::RecvStream for RecvStream {
 
     #[cfg_attr(feature = "tracing", instrument(skip_all, level = "trace"))]
     fn recv_id(&self) -> StreamId {
-        let num: u64 = self.stream.as_ref().unwrap().id().into();
+        // `self.stream` is `None` while a read is in flight: use the id cached at construction
+        let num: u64 = self.id.into();
 
         num.try_into().expect("invalid stream id")
     }
